@@ -4,7 +4,7 @@ use std::collections::HashMap;
 use std::sync::atomic::{AtomicU64, Ordering};
 use std::sync::{Arc, Mutex};
 
-use nuts_rs::{CpuLogpFunc, CpuMathError, LogpError};
+use nuts_rs::{CpuLogpFunc, CpuMathError, LogpError, Storable};
 use nuts_storable::HasDims;
 
 #[derive(Clone, Debug)]
@@ -142,14 +142,38 @@ impl Target {
 
 impl HasDims for Target {
     fn dim_sizes(&self) -> HashMap<String, u64> {
-        HashMap::from([("unconstrained_parameter".to_string(), self.dim as u64), ("dim".to_string(), self.dim as u64)])
+        HashMap::from([("unconstrained_parameter".to_string(), self.dim as u64), ("dim".to_string(), self.dim as u64),
+            ("row".to_string(), EXP_ROWS as u64), ("col".to_string(), EXP_COLS as u64)])
     }
+}
+
+pub const EXP_ROWS: usize = 2;
+pub const EXP_COLS: usize = 3;
+
+/// The expanded draw: the position itself plus a scalar and non-square / 3-d arrays derived from it (every cell
+/// distinct), so that the storage backends are exercised on multi-dimensional draw variables.
+#[derive(Storable, Clone, Debug)]
+pub struct Expanded {
+    #[storable(dims("dim"))]
+    pub value: Vec<f64>,
+    pub first: f64,
+    #[storable(dims("row", "col"))]
+    pub wide: Vec<f64>,
+    #[storable(dims("col", "row"))]
+    pub tall: Vec<f64>,
+    #[storable(dims("row", "col", "row"))]
+    pub cube: Vec<f64>,
+}
+
+/// (variable name, shape) of the expanded draw for dimension `dim`, in declaration order
+pub fn expanded_shapes(dim: usize) -> Vec<(&'static str, Vec<usize>)> {
+    vec![("value", vec![dim]), ("first", vec![]), ("wide", vec![EXP_ROWS, EXP_COLS]), ("tall", vec![EXP_COLS, EXP_ROWS]), ("cube", vec![EXP_ROWS, EXP_COLS, EXP_ROWS])]
 }
 
 impl CpuLogpFunc for Target {
     type LogpError = TErr;
     type FlowParameters = FlowP;
-    type ExpandedVector = Vec<f64>;
+    type ExpandedVector = Expanded;
 
     fn dim(&self) -> usize {
         self.dim
@@ -190,8 +214,11 @@ impl CpuLogpFunc for Target {
         res.map(|_| lp)
     }
 
-    fn expand_vector<R: rand::Rng + ?Sized>(&mut self, _rng: &mut R, array: &[f64]) -> Result<Vec<f64>, CpuMathError> {
-        Ok(array.to_vec())
+    fn expand_vector<R: rand::Rng + ?Sized>(&mut self, _rng: &mut R, array: &[f64]) -> Result<Expanded, CpuMathError> {
+        let x0 = array.first().copied().unwrap_or(0.0);
+        let cell = |off: f64| move |k: usize| x0 + off + k as f64 * 0.125;
+        Ok(Expanded { value: array.to_vec(), first: x0, wide: (0..EXP_ROWS * EXP_COLS).map(cell(10.0)).collect(),
+            tall: (0..EXP_ROWS * EXP_COLS).map(cell(20.0)).collect(), cube: (0..EXP_ROWS * EXP_COLS * EXP_ROWS).map(cell(30.0)).collect() })
     }
 
     // ---- a toy affine "flow": z = (x - shift) / scale, refitted from the draws it is given
